@@ -36,11 +36,12 @@ What it does
 Nothing here knows about ak_py.
 """
 
+import copy
 import dis
 import sys
 import threading as _thr
 
-__all__ = ["Scheduler", "Execution", "SchedLock", "ThreadingShim", "SHIM", "instrument", "uninstrument",
+__all__ = ["ModuleState", "Scheduler", "Execution", "SchedLock", "ThreadingShim", "SHIM", "instrument", "uninstrument",
            "shared_attr_offsets", "explore", "count_preemptions", "HarnessError"]
 
 
@@ -56,6 +57,48 @@ _ACTIVE = None          # the Scheduler whose execution is in progress (at most 
 _POINTS = {}            # code object -> None (every instruction) | frozenset of offsets
 _TOOL = None
 _WAIT_S = 30.0
+
+
+# --------------------------------------------------------------------------- module-level state
+class ModuleState:
+    """Owns the mutable containers (dict/list/set) that are globals of the given modules or attributes of
+    the classes defined in them (nested classes included): ``restore()`` puts back, in place, the contents
+    they had when the snapshot was taken.  Called before every execution / history so that state which the
+    code under test keeps at module or class level cannot leak from one execution into the next."""
+
+    def __init__(self, *modules):
+        self.items = []
+        seen = set()
+
+        def scan(holder, modname, depth):
+            for name, val in list(vars(holder).items()):
+                if name.startswith("__") and name.endswith("__"):
+                    continue
+                if isinstance(val, type) and getattr(val, "__module__", None) == modname and depth < 4 \
+                        and id(val) not in seen:
+                    seen.add(id(val))
+                    scan(val, modname, depth + 1)
+                elif isinstance(val, (dict, list, set)) and id(val) not in seen:
+                    seen.add(id(val))
+                    try:
+                        self.items.append((val, copy.deepcopy(val)))
+                    except Exception:  # noqa - not copyable: not owned
+                        pass
+        for m in modules:
+            scan(m, m.__name__, 0)
+
+    def restore(self):
+        n = 0
+        for live, snap in self.items:
+            if live != snap:
+                n += 1
+                fresh = copy.deepcopy(snap)
+                if isinstance(live, list):
+                    live[:] = fresh
+                else:
+                    live.clear()
+                    live.update(fresh)
+        return n
 
 
 # --------------------------------------------------------------------------- instrumentation
@@ -287,8 +330,13 @@ class Scheduler:
         self.errors = [None] * nthreads
         self._nfin = 0
         self._fin_lock = _thr.Lock()
+        self._locks_seen = {}
 
     # ---- decisions ------------------------------------------------------------------------
+    def _lock_name(self, lock):
+        """Locks are numbered per execution in the order the scheduler first meets them (deterministic)."""
+        return "lock#%d" % self._locks_seen.setdefault(id(lock), len(self._locks_seen) + 1)
+
     def _enabled(self):
         return tuple(j for j in range(self.n)
                      if not self.finished[j] and (self.blocked[j] is None or self.blocked[j].owner is None))
@@ -313,7 +361,8 @@ class Scheduler:
             if all(self.finished):
                 return None
             self.deadlock = {"step": self.nsteps,
-                             "waiting": {f"T{j}": f"lock#{self.blocked[j].lid} held by T{self.blocked[j].owner}"
+                             "waiting": {f"T{j}": f"{self._lock_name(self.blocked[j])} held by "
+                                                  f"T{self.blocked[j].owner}"
                                          for j in range(self.n) if not self.finished[j]}}
             self._abort_all(cur)
             raise _Abort()
@@ -361,7 +410,7 @@ class Scheduler:
             self._fail(f"thread T{i} runs while the baton is with T{self.current}", i)
         self.blocked[i] = lock
         self.blocked_events += 1
-        nxt = self._decide(i, False, ("blocked", f"lock#{lock.lid}"))
+        nxt = self._decide(i, False, ("blocked", self._lock_name(lock)))
         self._switch(i, nxt)
 
     # ---- threads --------------------------------------------------------------------------
